@@ -87,13 +87,10 @@ def process_patch_pair(patch_pair: PatchPair, config: Configuration) -> PatchPai
         ang_min, ang_max = config.scales.scales.get_angle_radian(
             zmids[i], cosmology=config.cosmology
         )
-        counts = tree1.count(
-            tree2,
-            ang_min,
-            ang_max,
-            weight_scale=config.scales.rweight,
-            weight_res=config.scales.resolution,
-        )
+        count_kwargs = dict(weight_scale=config.scales.rweight)
+        if config.scales.resolution is not None:  # otherwise use default
+            count_kwargs["weight_res"] = config.scales.resolution
+        counts = tree1.count(tree2, ang_min, ang_max, **count_kwargs)
 
         binned_counts[:, i] = counts
         sum_weights1[i] = tree1.sum_weights
